@@ -5,6 +5,8 @@ Exploration part: generated interleavings of open/read/write/seek/truncate/flush
 implementation / extracted reference model (Spec/FsSpec.v) / extracted decoder (Spec/Decode.v) at every quiescent point."""
 import os
 from . import common, gen, hist, histcheck
+
+VARIANTS = ("plain", "ofsseek")
 from .common import hexs
 
 NEEDED = ["adfPos2DataBlock", "adfFilePos2datablockIndex", "adfFileSize2Datablocks", "adfFileDatablocks2Extblocks",
@@ -247,6 +249,8 @@ def run(ctx):
     # raw blocks after every call = Model/FileIO.v)
     from . import fileiocorr
     fileiocorr.run(ctx, 40 if ctx.tier == "quick" else 1500)
+    # the OFS walk along the data blocks (adfFileSeekOFS_, the fallback of a failed table-driven seek): library built with -DTEST_OFS_SEEK
+    fileiocorr.run_ofsseek(ctx, 16 if ctx.tier == "quick" else 600)
     tf = common.translator_failures(ctx, NEEDED)
     if tf:
         proof["problems"].append("translator could not translate: %s" % tf)
